@@ -746,5 +746,129 @@ impl Decoder {
 //@@ Decoder::default
 }
 
+// =====================================================================================================
+// Installation of the decoder: Storage::load_storage_and_trailer_password (pdf/src/file.rs)
+// C06 anchor "decoder installed from trailer /Encrypt and /ID". ISO 32000-1 7.6.1: the Encrypt entry of the trailer;
+// Algorithm 2 e): "the first element of the file's file identifier array (the value of the ID entry in the document's
+// trailer dictionary)"; 7.6.1: "strings in the encryption dictionary" are not encrypted; Table 20 EncryptMetadata.
+// =====================================================================================================
+#[verifier::external_body] pub struct PdfStream { _p: () }
+#[verifier::external_body] pub struct SmallString { _p: () }
+#[verifier::external_body] pub struct XRefTable { _p: () }
+#[verifier::external_body] pub struct ParseOptions { _p: () }
+/// primitive.rs: an IndexMap<Name, Primitive>; modelled by the map of its entries
+#[verifier::external_body] pub struct Dictionary { _p: () }
+//@@ enum Primitive
+pub type DMap = Map<Seq<char>, Primitive>;
+pub uninterp spec fn entries(d: Dictionary) -> DMap;
+impl Dictionary {
+    pub open spec fn view(&self) -> DMap { entries(*self) }
+    /// abstract callee Dictionary::get (primitive.rs:130, IndexMap::get)
+    #[verifier::external_body]
+    pub fn get(&self, key: &str) -> (r: Option<&Primitive>)
+        ensures match r { Some(p) => self@.dom().contains(key@) && *p == self@[key@], None => !self@.dom().contains(key@) }
+    { unimplemented!() }
+}
+/// what a resolver sees: the storage it was made from (cross-reference table, backend, decoder, caches)
+#[verifier::external_body] pub struct Store { _p: () }
+/// reading an object through a resolver (unit `guard`: StorageResolver::resolve)
+pub uninterp spec fn lookup(st: Store, r: PlainRef) -> Result<Primitive>;
+/// the derived reader `CryptDict::from_primitive` (pdf_derive; unit `expansions` covers derived readers)
+pub uninterp spec fn cryptdict_reads(p: Primitive, st: Store) -> Result<CryptDict>;
+#[verifier::external_body] pub struct StorageResolver { _p: () }
+impl StorageResolver {
+    pub uninterp spec fn store(&self) -> Store;
+    #[verifier::external_body]
+    pub fn new<B: Backend, OC, SC, L>(storage: &Storage<B, OC, SC, L>) -> (r: StorageResolver)
+        ensures r.store() == storage.store()
+    { unimplemented!() }
+    #[verifier::external_body]
+    pub fn resolve(&self, r: PlainRef) -> (res: Result<Primitive>)
+        ensures res == lookup(self.store(), r)
+    { unimplemented!() }
+}
+impl Primitive {
+    /// abstract callees in primitive.rs (one `match` each): as_array, as_string, resolve, into_dictionary, clone
+    #[verifier::external_body]
+    pub fn as_array(&self) -> (r: Result<&[Primitive]>)
+        ensures match *self { Primitive::Array(v) => r matches Ok(s) && s@ == v@, _ => r is Err }
+    { unimplemented!() }
+    #[verifier::external_body]
+    pub fn as_string(&self) -> (r: Result<&PdfString>)
+        ensures match *self { Primitive::String(st) => r matches Ok(x) && *x == st, _ => r is Err }
+    { unimplemented!() }
+    #[verifier::external_body]
+    pub fn resolve(self, r: &StorageResolver) -> (res: Result<Primitive>)
+        ensures res == (match self { Primitive::Reference(id) => lookup(r.store(), id), _ => Ok(self) })
+    { unimplemented!() }
+    #[verifier::external_body]
+    pub fn into_dictionary(self) -> (r: Result<Dictionary>)
+        ensures match self { Primitive::Dictionary(d) => r == Ok::<Dictionary, PdfError>(d), _ => r is Err }
+    { unimplemented!() }
+}
+impl Clone for Primitive {
+    #[verifier::external_body]
+    fn clone(&self) -> (r: Primitive) ensures r == *self { unimplemented!() }
+}
+impl CryptDict {
+    #[verifier::external_body]
+    pub fn from_primitive(p: Primitive, resolve: &StorageResolver) -> (r: Result<CryptDict>)
+        ensures r == cryptdict_reads(p, resolve.store())
+    { unimplemented!() }
+}
+/// `slice.get(0)`
+#[verifier::external_body]
+fn hoist_first<T>(s: &[T]) -> (r: Option<&T>)
+    ensures match r { Some(x) => s@.len() > 0 && *x == s@[0], None => s@.len() == 0 }
+{ s.get(0) }
+pub trait Backend {
+    /// backend.rs: the newest cross-reference table and the trailer dictionary (units xrefread / xrefchain)
+    spec fn xref_and_trailer(&self, start_offset: usize, st: Store) -> Result<(XRefTable, Dictionary)>;
+    fn read_xref_table_and_trailer(&self, start_offset: usize, resolve: &StorageResolver) -> (r: Result<(XRefTable, Dictionary)>)
+        ensures r == self.xref_and_trailer(start_offset, resolve.store());
+}
+//@@ struct Storage
+pub uninterp spec fn storage_store<B, OC, SC, L>(s: Storage<B, OC, SC, L>) -> Store;
+
+/// "the first element of the file's file identifier array": /ID [ (string) ... ]
+pub open spec fn first_id(trailer: Dictionary) -> Option<Seq<u8>> {
+    if !trailer@.dom().contains("ID"@) { None }
+    else { match trailer@["ID"@] {
+        Primitive::Array(v) => if v@.len() == 0 { None } else { match v@[0] { Primitive::String(st) => Some(st.view()), _ => None } },
+        _ => None } }
+}
+/// the reference behind an entry, if the entry is an indirect reference
+pub open spec fn entry_ref(d: Dictionary, key: Seq<char>) -> Option<PlainRef> {
+    if !d@.dom().contains(key) { None } else { match d@[key] { Primitive::Reference(r) => Some(r), _ => None } }
+}
+/// the catalog dictionary as the code reaches it: the object behind /Root, one more indirection followed
+pub open spec fn catalog_of(st: Store, c: PlainRef) -> Option<Dictionary> {
+    match lookup(st, c) {
+        Ok(Primitive::Dictionary(d)) => Some(d),
+        Ok(Primitive::Reference(c2)) => match lookup(st, c2) { Ok(Primitive::Dictionary(d)) => Some(d), _ => None },
+        _ => None,
+    }
+}
+/// the decoder as from_password returned it: without the two exemption references
+pub open spec fn unexempt(d: Decoder) -> Decoder {
+    Decoder { key_size: d.key_size, key: d.key, method: d.method, encrypt_indirect_object: None, metadata_indirect_object: None,
+              encrypt_metadata: d.encrypt_metadata }
+}
+pub open spec fn with_refs<B, OC, SC, L>(s: Storage<B, OC, SC, L>, refs: XRefTable) -> Storage<B, OC, SC, L> {
+    Storage { refs: refs, ..s }
+}
+pub open spec fn with_decoder<B, OC, SC, L>(s: Storage<B, OC, SC, L>, d: Decoder) -> Storage<B, OC, SC, L> {
+    Storage { decoder: Some(d), ..s }
+}
+/// the decoder at the time the catalog is read: /Encrypt exemption installed, /Metadata exemption not yet
+pub open spec fn before_metadata(d: Decoder) -> Decoder {
+    Decoder { key_size: d.key_size, key: d.key, method: d.method, encrypt_indirect_object: d.encrypt_indirect_object,
+              metadata_indirect_object: None, encrypt_metadata: d.encrypt_metadata }
+}
+impl<B: Backend, OC, SC, L> Storage<B, OC, SC, L> {
+    pub open spec fn store(&self) -> Store { storage_store(*self) }
+//@@ Storage::load_storage_and_trailer_password
+}
+
 }
 fn main(){}
